@@ -74,6 +74,7 @@ class Gen:
         self.ec = corpus._ec(init.get('ec', 0)) if init['kind'] == 'msg' else corpus._ec(0)
         self.side = None         # index of a side root usable for copies
         self.pending = []        # ops that must directly follow the one just emitted
+        self.written = {}        # last text written per (segment path, field): reused to make equal siblings
         self.strict = (self.level == 1) or twin
 
     # ---------------------------------------------------------------- helpers
@@ -126,8 +127,15 @@ class Gen:
         rng = self.rng
         if self.pending:
             return self.pending.pop(0)
-        op = self._next_op(world, step)
+        op = self.no_instances_under_profile(self._next_op(world, step))
         return self.split_factory_add(world, op)
+
+    def no_instances_under_profile(self, op):
+        if op is None or not self.init.get('profile'):
+            return op
+        if op.get('via') in ('inst', 'parent_kw', 'parent_attr') or 'inst' in (op.get('v') or {}) or op.get('k') in ('reattach',):
+            return {'k': 'read', 'what': 'er7', 'p': []}
+        return op
 
     def split_factory_add(self, world, op):
         """parent.add_x(name) followed by child.value = text are two API calls: two operations."""
@@ -217,11 +225,22 @@ class Gen:
         idx, fref, reps = self.pick_field(seg_name, seg_node)
         card = HN.field_card(self.version, seg_name, idx)
         text = self.field_value(fref, self.inv())
+        if self.mixname == 'c04' and not self.strict and fref is not None and T.is_base(self.version, fref[2]) and rng.random() < 0.15:
+            # a base-datatype field given two components: TOLERANT keeps them, validate() must name the field
+            text = text + self.ec['COMPONENT'] + gen.valid_literal('ST', self.tok, rng)
+        wkey = (tuple(map(tuple, path)), idx)
+        if reps and wkey in self.written and rng.random() < 0.12:
+            text = self.written[wkey]        # siblings with equal content: identity must still tell them apart
+        else:
+            self.written[wkey] = text
         r = rng.random()
         step = ['fld', idx, 0, self.sp()]
         if r < 0.40:
             return {'k': 'set', 'p': path, 'c': step, 'v': {'text': text}, 'via': 'attr'}
         if r < 0.60:
+            if reps and rng.random() < 0.2:
+                step[2] = -rng.randrange(1, reps + 1)       # negative index: counted from the last repetition
+                return {'k': 'set', 'p': path, 'c': step, 'v': {'text': text}, 'via': 'item'}
             rr = rng.randrange(0, reps + 1)
             if rr == reps and self.strict and card[1] != -1 and reps >= card[1] and self.mixname == 'c09':
                 rr = max(0, reps - 1)
@@ -465,10 +484,14 @@ class Gen:
                 if not segs:
                     return None
                 c = rng.choice(segs)
+                if rng.random() < 0.1 and (not self.strict or self.mixname in ('c05', 'c11')):
+                    c = (rng.choice(['ZZ1', 'ZIN']),)        # a chain through a Z segment that does not exist yet
                 m = self.model(world)
                 have = len(m.reps('seg', c[0])) if m is not None else 0
                 path = [['seg', c[0], 0, rng.choice([0, 1])]]
                 node = m.reps('seg', c[0])[0] if have else None
+                if c[0].startswith('Z'):
+                    return self._chain_field(path, c[0], node)
                 return self.op_write_deep(world, path, c[0], node) if rng.random() < 0.6 else self._chain_field(path, c[0], node)
             targets = self.seg_targets(world)
             if not targets:
@@ -533,7 +556,7 @@ class Gen:
         kind = rng.choice(['parent_kw', 'parent_kw', 'parent_attr', 'parent_attr', 'detach', 'elem', 'elem', 'bdt', 'bdt',
                            'bdt', 'hold', 'hold', 'readd', 'value_bdt', 'value_bdt', 'dt_assign', 'dt_assign'])
         if self.mixname == 'c09':      # C09 speaks of assignments, additions, deletions and copies only
-            kind = rng.choice(['bdt', 'bdt', 'parent_attr', 'elem', 'elem', 'regrab'])
+            kind = rng.choice(['bdt', 'bdt', 'parent_attr', 'elem', 'elem', 'regrab', 'hold'])
         elif rng.random() < 0.1:
             kind = 'regrab'
         if kind == 'regrab':
@@ -650,6 +673,8 @@ class Gen:
             v, ok = gen.leaf(dt, self.tok, rng, self.inv())
             return {'k': 'set', 'p': path, 'c': ['fld', i, 0, self.sp()], 'via': 'attr', 'v': {'bdt': [dt, v]}}
         # hold: keep a handle obtained by traversal, write through it later (maybe after the same child was added)
+        if any(st[2] != 0 for st in path):
+            return None        # a chain of plain attribute reads always addresses the first repetition
         comps = _usable_comps(self.version, fref) if fref is not None else []
         hpath = path + [['fld', idx, 0, 0]]
         if comps:
@@ -663,6 +688,16 @@ class Gen:
             text = self.field_value(fref)
         reg = rng.randrange(100)
         follow = []
+        if comps and rng.random() < 0.5 and not (self.strict and reps):
+            # read a handle, write a *sibling* field through the same (maybe missing) segment, then write
+            # through the handle: everything must land in the one segment
+            hp = path + [['fld', idx, 0, 0]]
+            oidx, ofref, oreps = self.pick_field(seg_name, node, 0.2)
+            if oidx != idx and not (self.strict and oreps):
+                self.pending.append({'k': 'set', 'p': path, 'c': ['fld', oidx, 0, self.sp()], 'v': {'text': self.field_value(ofref)}, 'via': 'attr'})
+            ctext = gen.component_text(rng, self.version, ce[1], self.ec, self.tok, 0.4, 0.0)
+            self.pending.append({'k': 'held_set', 'reg': reg, 'hp': hp, 'c': ['cmp', cidx, 0, self.sp()], 'text': ctext})
+            return {'k': 'hold', 'p': hp, 'reg': reg}
         if rng.random() < 0.6:
             follow.append({'k': 'add', 'p': path, 'c': step, 'via': 'factory'})
             follow.append({'k': 'value', 'p': path + [['fld', idx, reps, 0]], 'text': self.field_value(fref), 'after_add': True})
@@ -963,12 +998,13 @@ def gen_init(rng, mix, tok):
             init['text'] = gen.segment_text(rng, version, name, corpus._ec(0), tok, fill=rng.choice([0.15, 0.4]), invalid_p=inv,
                                             overflow_p=ovf)
         return init
-    if kind == 'msg' and mix == 'c04' and rng.random() < 0.15:
+    if kind == 'msg' and mix in ('c04', 'c05') and rng.random() < 0.15:
         from worlds import valorder_world as VO
         item = VO.make_item(rng, rng.randrange(1000))
         while item.get('kind') == 'zfield':
             item = VO.make_item(rng, rng.randrange(1000))
-        return {'kind': 'msg', 'name': 'RSP_K21', 'version': '2.5', 'level': 2, 'ec': 0, 'text': item['text'], 'profile': True}
+        return {'kind': 'msg', 'name': 'RSP_K21', 'version': '2.5', 'level': level if mix == 'c05' else 2, 'ec': 0,
+                'text': item['text'], 'profile': True}
     if kind == 'msg':
         pool = [s for s in MSG_POOL if s in T.messages(version)]
         name = rng.choice(pool) if rng.random() < 0.8 else gen.pick_structure(rng, version)
@@ -1000,6 +1036,8 @@ def make_generate(mix, twin=False, n_ops=(2, 8)):
             hi = hi + 4
         case = {'world': 'history', 'seed': seed, 'init': init, 'twin': twin, 'mix': mix,
                 'gen': {'n_ops': rng.randrange(lo, hi + 1)}}
+        if twin:
+            case['twin_order'] = rng.choice(['strict_first', 'tolerant_first'])
         return case
     return generate
 
